@@ -183,19 +183,20 @@ def commitment_index(ctx, P):
         return
     s = ws[0]
     lp = s.loops[-1] if s.loops else None
-    var, start, cond, inc = for_shape(lp, subst) if lp is not None and lp.get("k") == "for" else (None, None, None, None)
-    o = re.escape(var or "?")
-    spk = r"block\.vtx\[0\]\.vout\[" + o + r"\]\.scriptPubKey"
-    atoms = {"NONEMPTY": ("block.vtx.empty()", False), "INRANGE": "%s < block.vtx[0].vout.size()" % var,
+    info = loop_info(f, lp, subst) if lp is not None else dict(kind="other", ranges=[], var=None, start=None, complete=False, cond=None)
+    var = info["var"]
+    el = elem_rx(info)
+    spk = el + r"\.scriptPubKey"
+    atoms = {"NONEMPTY": ("block.vtx.empty()", False),
              "LEN": (re.compile(spk + r"\.size\(\) < 38"), False), "B0": re.compile(spk + r"\[0\] == OP_RETURN"), "B1": re.compile(spk + r"\[1\] == 36"),
              "B2": re.compile(spk + r"\[2\] == 170"), "B3": re.compile(spk + r"\[3\] == 33"), "B4": re.compile(spk + r"\[4\] == 169"),
              "B5": re.compile(spk + r"\[5\] == 237")}
-    okl = (lp is not None and len(s.loops) == 1 and start == "0" and cond == "%s < block.vtx[0].vout.size()" % var and inc in ("%s++" % var, "++%s" % var)
-           and not has_break(lp.get("b")) and match(["local", var], s.expr[3]) and s.expr[1] == "="
-           and not [w for w in writes_to_local(f, var) if w[1] not in ("post++", "++")])
+    # the function returns a *position*, so the scan is a counting loop; its element may be spelled vout[o] or each(vout)
+    okl = (lp is not None and len(s.loops) == 1 and info["kind"] == "index" and info["start"] == "0" and "block.vtx[0].vout" in info["ranges"] and info["complete"]
+           and match(["local", var], s.expr[3]) and s.expr[1] == "=")
     ctx.ob("GetWitnessCommitmentIndex/loop", "TWIN", "the commitment index is the *last* matching coinbase output: a complete break-free scan o = 0 .. vout.size()-1 assigning o",
-           okl, s.where, {"loop": [var, start, cond, inc], "assigned": show(s.expr)})
-    check_equiv(ctx, own_formula(s, subst), "NONEMPTY && INRANGE && LEN && B0 && B1 && B2 && B3 && B4 && B5", atoms, "GetWitnessCommitmentIndex/pattern", "TWIN",
+           okl, s.where, {"loop": [info["kind"], var, info["start"], info["ranges"]], "assigned": show(s.expr)})
+    check_equiv(ctx, drop_loop_conds(own_formula(s, subst), [info]), "NONEMPTY && LEN && B0 && B1 && B2 && B3 && B4 && B5", atoms, "GetWitnessCommitmentIndex/pattern", "TWIN",
                 "an output is a witness commitment exactly when its script has >= 38 bytes and starts with OP_RETURN 0x24 0xaa 0x21 0xa9 0xed", s.where)
 
 
@@ -393,13 +394,14 @@ def leaves(ctx, P):
         subst = naming(f, P)
         pushes = sites(f, lambda x: x[0] == "mcall" and x[1] == "std::vector::push_back" and is_expr(x[2]) and x[2][0] == "local", P)
         ok, detail = False, {}
-        if len(pushes) == 1 and len(pushes[0].loops) == 1 and pushes[0].loops[0].get("k") == "for":
+        if len(pushes) == 1 and len(pushes[0].loops) == 1:
             s = pushes[0]
-            var, st, cond, inc = for_shape(s.loops[0], subst)
+            info = loop_info(f, s.loops[0], subst)
             vec = s.expr[2][1]
             arg = call_args(s.expr)[0]
-            want = ["mcall", getter, ["idx", [".", ["param", "block"], "CBlock::vtx"], ["local", var]]]
-            detail = {"loop": [var, st, cond, inc], "pushed": show(arg)}
+            term = F.key(F.expand(arg, subst))
+            want = elem_rx(info) + r"\." + getter.split("::")[-1] + r"\(\)(?:\.ToUint256\(\))?"
+            detail = {"loop": [info["kind"], info["var"], info["start"], info["ranges"]], "pushed": term}
             cm = sites(f, call_to("ComputeMerkleRoot"), P)
             okc = len(cm) == 1 and match(["local", vec], call_args(cm[0].expr)[0]) and F.implies(cm[0].formula(subst), F.atom("done(loop@%s)" % s.loops[0].get("l")))
             if with_flag:
@@ -413,9 +415,8 @@ def leaves(ctx, P):
             else:   # the coinbase's witness hash is defined as 0: exactly one default-constructed leaf first
                 okpre = len(pre) == 1 and pre[0].expr[1] == "std::vector::emplace_back" and not call_args(pre[0].expr) and not pre[0].loops and pre[0].line < s.line
             detail["other_leaf_writes"] = [show(x.expr) for x in pre]
-            ok = (st == start and cond == "%s < block.vtx.size()" % var and inc in ("%s++" % var, "++%s" % var) and not has_break(s.loops[0].get("b"))
-                  and contains(want, arg) and okc and okpre and own_formula(s, subst) == F.to_formula(s.loops[0].get("c"), subst)
-                  and not [w for w in writes_to_local(f, var) if w[1] not in ("post++", "++")])
+            ok = (info["start"] == start and "block.vtx" in info["ranges"] and info["complete"] and re.fullmatch(want, term) is not None and okc and okpre
+                  and F.equivalent(drop_loop_conds(own_formula(s, subst), [info]), F.T))
         ctx.ob("%s/leaves" % q, "TWIN", "%s hashes exactly the list %s(block.vtx[s]) for s = %s .. size-1%s, unconditionally, and returns ComputeMerkleRoot of it%s"
                % (q, getter, start, " preceded by one null leaf for the coinbase" if start == "1" else "", " passing the mutated out-parameter through" if with_flag else ""),
                ok, f.where, detail)
